@@ -51,7 +51,7 @@ RULE = ("configurations = MaxEvaluationCost {60,400} x MaxCallDepth {6,12} x Sta
         "{evaluates a catch that catches nothing, catch(error()) and a successful catch, sprintf(\"%O\") = safe_apply of object_name()} x "
         "MaxEvaluationCost x MaxCallDepth x StackSize (quick: base, the 7 one-factor changes, the 3 master behaviours on the base and one on "
         "the small stacks = 12 boots; thorough: 96 + 24 = 120 boots), "
-        "each a separate boot; programs (about 2240 per configuration): 8 loop forms (while(1), for(;;), do-while, while(i--), for with constant / "
+        "each a separate boot; programs (about 2760 per configuration): 8 loop forms (while(1), for(;;), do-while, while(i--), for with constant / "
         "local bound, nested foreach over array / mapping) x 18 bodies (empty, call, catch(expr), catch{block}, efun with callback, "
         "catch of an endless loop, call_other, and a REAL run-time error caught in every iteration: division by zero, error(), index out of "
         "bounds, call_other on 0, error in a callee, bad operand in a catch block, sprintf error, throw, catch(catch(1/0)), error inside an "
@@ -74,13 +74,20 @@ RULE = ("configurations = MaxEvaluationCost {60,400} x MaxCallDepth {6,12} x Sta
         "operation {a+b, a+=b, temporary+b, a+temporary; mapping/array also global+=b, element+=b; array a|b, a&b, a-b; mapping a*b; string "
         "sprintf(\"%s%s\"), implode} x |a| in {1, L/6, L/2-1, half of the result, L/2+1, L-1, L} x result size {L, L+1, L+9} (|b| follows, so "
         "|a|<|b|, |a|=|b| and |a|>|b| all occur) x {disjoint, half-overlapping contents where equal keys / elements merge} x {plain, inside "
-        "catch}, L = the limit of that container kind; catch-recursion started 0/1/2 frames "
+        "catch}, L = the limit of that container kind; string (+) number: {a+n, a+=n, n+a, global+=n} x n in {1-digit, 7-digit, 20-character int, short float, "
+        "float with 300 digits} x strlen(a) = L-k for k in {0,1,2,3,5,8,12,19,20,21,25} x {plain, inside catch}; family 'master-burn': a master apply "
+        "made by an efun {object_name via sprintf(\"%O\"), valid_read, valid_write, valid_seteuid, creator_file, valid_object, valid_bind} spends the whole "
+        "budget x {in a loop, in a loop of catch, once then an endless loop, once inside catch then an endless loop} x the calling code runs in {the "
+        "function the driver calls itself = first control frame, one call deeper, below run()'s catch}; catch-recursion started 0/1/2 frames "
         "deeper (parity of the depth limit), wide frames / spread recursion inside catch, catch(f(allocate(N)...)).  Monitor (hook H1) at EVERY instruction boundary: "
         "instructions <= 3 x MaxEvaluationCost, control frames <= MaxCallDepth, sp inside the configured StackSize, size of the value on top of the stack; "
         "at the end every value reachable from the object's variables and the return value; a limit error raised (recorded inside "
         "error_handler()) while code after the outermost catch still runs = catch swallowed it; abort at 20 x the bound = runaway")
 
-ASSUME = ["the program under test is compiled and create()d with a large budget; the monitored evaluation is run() entered through a driver-style apply",
+ASSUME = ["the value-builder programs (sizes of strings, arrays, mappings, buffers; about 2000 of the 2760) run with a fixed budget of 200000 and "
+          "do not recurse: they are run for every combination of the four size limits but only with the base MaxEvaluationCost / MaxCallDepth / "
+          "StackSize and the plainly logging master; all other programs run in every configuration",
+          "the program under test is compiled and create()d with a large budget; the monitored evaluation is run() entered through a driver-style apply",
           "value builders and refused-then-used programs run with MaxEvaluationCost 200000 (they are about the size limits)",
           "sizes are checked for the value on top of the stack at every instruction boundary and for everything reachable at the end of "
           "the evaluation, not for values buried deeper in the stack in between",
@@ -106,9 +113,15 @@ def run(ck):
     exe = build(ck)["h_c04"]
     cs = configs(ck.tier)
     per = 30 if ck.tier == "quick" else 40
+    base = tuple(g[0] for g in GRID)
     for c, m in cs:
         tag = "c" + "-".join(str(x) for x in c) + ("" if m == "plain" else "-master-" + m)
-        ck.enum(exe, ["--conf=" + ",".join(str(x) for x in c), "--master=" + m], tag, batch=8, deadline_s=per, jobs=JOBS, timeout_ms=60000)
+        args = ["--conf=" + ",".join(str(x) for x in c), "--master=" + m]
+        # the value builders (kind V: sizes of strings / arrays / mappings / buffers, run with their own fixed budget) are run once per
+        # combination of the four size limits: with the base evaluation limits and the plainly logging master
+        if not (m == "plain" and c[:3] == base[:3]):
+            args.append("--progkinds=LR")
+        ck.enum(exe, args, tag, batch=16, deadline_s=per, jobs=JOBS, timeout_ms=60000)
     fix_replays(ck)
     cov = vlib.enum_coverage(ck.parts, RULE, "evaluations_run",
                              extra={"configurations": len(cs),
